@@ -110,7 +110,7 @@ CHECKS.update({
 CHECKS.update({
  "C15": ("gencheck", "exploration",
    "differential monitor over repeated fresh-process generator runs + reference-model monitors (C13, C12, C01) re-run against generated extension trees",
-   "astool is built from the working tree and run in fresh processes on the shipped vocabularies (3 runs quick, 24 thorough): all outputs must be byte-identical and equal, file by file and comment-free syntax tree by syntax tree, to the shipped streams package. Seeded random extension vocabularies (1 quick, 10 thorough) are generated, compiled, and judged by the streamsmon engine built against that tree with the ontology oracle extended by the extension file.",
+   "astool is built from the working tree and run in fresh processes on the shipped vocabularies (32 runs quick, 64 thorough): all outputs must be byte-identical and equal, file by file and comment-free syntax tree by syntax tree, to the shipped streams package. Seeded random extension vocabularies (1 quick, 10 thorough) are generated, compiled, and judged by the streamsmon engine built against that tree with the ontology oracle extended by the extension file.",
    "Trusted: go/parser and go/printer for the syntax-tree comparison; the extension generator stays within constructs demonstrated by the shipped extension vocabularies.",
    "DESIGN.md 5/C15"),
 })
